@@ -65,10 +65,16 @@ def judge_state(ctx, m, where):
     g = m.graph
     V = g.n_vertices
     k = m.n_features_per_vertex
-    edges = [(int(a), int(b)) for a, b in np.asarray(g.edges).reshape(-1, 2)]
+    # "the graph joins i and j" is read off the adjacency matrix's non-zero entries (not off the object's own edge list)
+    A = dense(g.adjacency_matrix) != 0
+    directed = "Directed" in type(g).__name__ or "Tree" in type(g).__name__
+    edges = [(i, j) for i in range(V) for j in range(V) if A[i, j] and (directed or i < j)]
     pairs = set(tuple(sorted(e)) for e in edges)
     if len(pairs) != len(edges):
         return   # antiparallel pair: outside the quantifier
+    listed = set(tuple(sorted((int(a), int(b)))) for a, b in np.asarray(g.edges).reshape(-1, 2))
+    if listed != pairs:
+        ctx.fail("graph_edge_list_disagrees_with_its_adjacency_matrix", cls=type(g).__name__, mech="extra" if listed - pairs else "missing")
     storage = ("sparse" if m.sparse else "dense") + ":" + np.dtype(m.dtype).name
     mech = "%s:%s:%s" % (where, storage, "edgeless" if not edges else m.mode)
     try:
@@ -182,6 +188,16 @@ def make_graph(rng, V, kind):
         e = [(a, b) if rng.random() < 0.5 else (b, a) for a, b in und]
         e = [e[j] for j in rng.permutation(len(e))]
         return ms.DirectedGraph(gen.adjacency(V, e, False))
+    elif kind == "stored_zeros":
+        # a sparse adjacency matrix that stores some zeros explicitly (an edge removed by A[i, j] = 0, a zero weight): not edges
+        e = gen.random_undirected_edges(rng, V, p=0.4) or [(0, V - 1)]
+        non = [(i, j) for i in range(V) for j in range(i + 1, V) if (i, j) not in e]
+        ghosts = [non[j] for j in rng.permutation(len(non))[: int(rng.integers(1, 3))]] if non else []
+        rows = [a for a, b in e] + [b for a, b in e] + [a for a, b in ghosts] + [b for a, b in ghosts]
+        cols = [b for a, b in e] + [a for a, b in e] + [b for a, b in ghosts] + [a for a, b in ghosts]
+        data = [1] * (2 * len(e)) + [0] * (2 * len(ghosts))
+        import scipy.sparse as sps
+        return ms.UndirectedGraph(sps.csr_matrix((np.array(data), (np.array(rows), np.array(cols))), shape=(V, V)))
     else:  # random undirected, possibly with isolated vertices, edges in arbitrary order
         e = gen.random_undirected_edges(rng, V, p=0.35) or [(0, V - 1)]
     e = [e[j] for j in rng.permutation(len(e))]
